@@ -705,7 +705,7 @@ for _p in ["C07", "C15"]:
         "counter (monotone flags: true readings stamped after, false readings before the read); the event list must be shown by some interleaving of the Lean model")
     PROPS[_p]["manifest"]["text"] += " TRACE: recorded event lists of real concurrent runs are decided by an acceptor proved exact for the interleaving model (a list is rejected iff no interleaving of the model shows it); what acceptance implies is proved in the property file."
     PROPS[_p]["manifest"]["technique"] += " + trace acceptance against the interleaving model (acceptor proved sound and complete)"
-PROPS["C07"]["required_theorems"] += ["Failsafe.Props.C07." + t for t in ["accepted_states_reachable", "final_sample_exclusive", "early_listener_impossible", "early_exceeded_impossible", "early_cancellation_impossible"]]
+PROPS["C07"]["required_theorems"] += ["Failsafe.Props.C07." + t for t in ["accepted_states_reachable", "final_sample_exclusive", "early_listener_impossible", "early_exceeded_impossible", "early_cancellation_impossible", "listener_count_is_events", "trace_listener_calls_match_outcome"]]
 PROPS["C15"]["required_theorems"] += ["Failsafe.Props.C15." + t for t in ["accepted_states_reachable", "seen_isDone_imp", "seen_closed_imp", "got_imp", "listener_event_of_ran", "isDone_true_after_listener"]]
 
 # C15's last clause names the hedge policy: the coordinating loop's cancellation check is one of the facts it rests on (round 9)
